@@ -76,7 +76,9 @@ def run(tier, seed):
     import formulas.tokens.operand as O
     ck.encode(O._index2col, O._col2index, O._build_cel, O._build_ref, O._build_id, O._build_sheet_id,
               O.fast_range2parts, O.fast_range2parts_v1, O.fast_range2parts_v2, O.fast_range2parts_v3,
-              O.fast_range2parts_v4, O.fast_range2parts_v5, O.range2parts)
+              O.fast_range2parts_v4, O.fast_range2parts_v5, O.range2parts, O._range2parts)
+    from formulas.ranges import Ranges
+    ck.encode(Ranges.get_range)
     ck.assume('the regex delivers c1,r1,c2,r2,n1,... as the substrings written in the text ($ markers, capture semantics of _re_range outside; C18/C01 run the regex on concrete spellings)',
               'rows are concrete boundary-pool values per generated condition (columns symbolic)',
               'injectivity is decided as equality with the statement\'s canonical text spec_ref(), which is injective by construction (unique decomposition [A-Z]*[0-9]*(:[A-Z]*[0-9]*)?, bijective column letters shown by col_roundtrip_*, decimal rendering trusted)')
@@ -108,6 +110,18 @@ def run(tier, seed):
             batch.add(h, T, only=only,
                       bounds='columns symbolic over 1..16384 / [A-Za-z]{1,3}; rows (%d, %d)' % (r1, r2),
                       public_replay=lambda f, a, r1=r1, r2=r2: public_replay_names(f, a, r1, r2))
+        isrc = open(os.path.join(ROOT, 'harness', 'c04_ids.py')).read()
+        for first in range(8):
+            h = Harness(ck, 'c04_ids_f%d' % first, isrc.replace('__FIRST__', str(first)).replace('__HOST__', '0').replace('__DRDC__', '(False, False)')); hs.append(h)
+            batch.add(h, T, only=['sheet_id_ok'],
+                      bounds="sheet names of length 1..3 over {a B 1 blank ' - . !} starting with %r, bare / in a named book / in a numbered book (boolean selectors)" % "aB1 '-.!"[first])
+        hosts = [0, 1] if quick else [0, 1, 2, 3]
+        for host in hosts:
+            for drdc in ((False, False), (True, False), (False, True), (True, True)):
+                h = Harness(ck, 'c04_rel_h%d_%d%d' % (host, drdc[0], drdc[1]),
+                            isrc.replace('__FIRST__', '0').replace('__HOST__', str(host)).replace('__DRDC__', repr(drdc))); hs.append(h)
+                batch.add(h, T, only=['relative_ok'],
+                          bounds='R[..]C[..] offsets in {-1,1,2}^2 from host cell #%d, second corner +%d rows +%d columns (boolean selectors)' % (host, drdc[0], 2 * drdc[1]))
         batch.run()
     finally:
         for h in hs:
